@@ -361,10 +361,10 @@ def items_for(tier, which="viol"):
                 if op == "remove_zerodm" and nchans > 3:
                     continue
                 for nfiles in ((1,) if quick else (1, 2)):
-                    if nfiles == 2 and nbits in (1, 4):
-                        # measured three times: 1-bit x 8 channels over two files does not finish inside the item budget
-                        # (1500 s) even at 3 blocks; two-file streaming is explored at 2, 8 and 32 bits, 1- and 4-bit on one
-                        # file (multi-file reading of every depth is C01/C02)
+                    if nfiles == 2 and nbits < 8:
+                        # measured four times on an idle machine: sub-byte x 8 channels over two files does not finish inside
+                        # the item budget (1500 s) even at 3 blocks; two-file streaming is explored at 8 and 32 bits, sub-byte
+                        # depths on one file (multi-file reading of every depth is C01/C02)
                         continue
                     for none in ((False,) if quick else (False, True)):
                         # measured (twice, idle machine): 4 blocks of sub-byte data leave single z3 queries undecided after
